@@ -63,8 +63,8 @@ func Populate(e *env.Env) (fx *Fixture, err error) {
 	}()
 	fx = &Fixture{E: e, Alpha: "alpha", Beta: "beta", Lock: "lockb", Empty: "emptyb", NewBucket: "newbkt",
 		Obj: "obj1", Obj2: "dir/obj2", HeldKey: "held", MPKey: "mp/key",
-		UserA: Acct{"userA" + Canary, "secretA0000000000000000000", "user"},
-		UserB: Acct{"userB" + Canary, "secretB0000000000000000000", "userplus"},
+		UserA:  Acct{"userA" + Canary, "secretA0000000000000000000", "user"},
+		UserB:  Acct{"userB" + Canary, "secretB0000000000000000000", "userplus"},
 		AdminC: Acct{"adminC" + Canary, "secretC0000000000000000000", "admin"},
 	}
 	root := e.Root()
@@ -178,7 +178,9 @@ func Table() []Route {
 				return s3c.BucketSub("PUT", fx.Lock, "object-lock", []byte(LockConfigXML), md5h([]byte(LockConfigXML)))
 			}, PathLike: []string{"bucket"}},
 		{ID: "PutBucketOwnershipControls", Method: "PUT", Shape: "bucket", Sub: "ownershipControls", Mutates: true, Action: "s3:PutBucketOwnershipControls", ResKind: "bucket",
-			Build: func(fx *Fixture) *s3c.Req { return s3c.BucketSub("PUT", fx.Alpha, "ownershipControls", []byte(OwnershipXML)) }, PathLike: []string{"bucket"}},
+			Build: func(fx *Fixture) *s3c.Req {
+				return s3c.BucketSub("PUT", fx.Alpha, "ownershipControls", []byte(OwnershipXML))
+			}, PathLike: []string{"bucket"}},
 		{ID: "PutBucketCors", Method: "PUT", Shape: "bucket", Sub: "cors", Mutates: true, Action: "s3:PutBucketCORS", ResKind: "bucket", Unsupported: true,
 			Build: func(fx *Fixture) *s3c.Req { return s3c.BucketSub("PUT", fx.Alpha, "cors", []byte(CorsXML)) }, PathLike: []string{"bucket"}},
 		{ID: "DeleteBucket", Method: "DELETE", Shape: "bucket", Mutates: true, Action: "s3:DeleteBucket", ResKind: "bucket", ACL: "WRITE",
@@ -216,17 +218,27 @@ func Table() []Route {
 		{ID: "GetBucketCors", Method: "GET", Shape: "bucket", Sub: "cors", Action: "s3:GetBucketCORS", ResKind: "bucket", Unsupported: true,
 			Build: func(fx *Fixture) *s3c.Req { return s3c.BucketSub("GET", fx.Alpha, "cors", nil) }, PathLike: []string{"bucket"}},
 		{ID: "DeleteObjects", Method: "POST", Shape: "bucket", Sub: "delete", Mutates: true, Action: "s3:DeleteObject", ResKind: "object", ACL: "WRITE",
-			Build: func(fx *Fixture) *s3c.Req { return s3c.DeleteObjects(fx.Alpha, []s3c.DelObj{{Key: fx.Obj}, {Key: fx.Obj2}}) }, PathLike: []string{"bucket", "Key", "VersionId"}},
+			Build: func(fx *Fixture) *s3c.Req {
+				return s3c.DeleteObjects(fx.Alpha, []s3c.DelObj{{Key: fx.Obj}, {Key: fx.Obj2}})
+			}, PathLike: []string{"bucket", "Key", "VersionId"}},
 		{ID: "PutObject", Method: "PUT", Shape: "object", Mutates: true, Action: "s3:PutObject", ResKind: "object", ACL: "WRITE", Streams: true,
-			Build: func(fx *Fixture) *s3c.Req { return s3c.PutObject(fx.Alpha, "newkey", []byte("fresh data "+strings.Repeat("x", 3000))) }, PathLike: []string{"bucket", "key"}},
+			Build: func(fx *Fixture) *s3c.Req {
+				return s3c.PutObject(fx.Alpha, "newkey", []byte("fresh data "+strings.Repeat("x", 3000)))
+			}, PathLike: []string{"bucket", "key"}},
 		{ID: "CopyObject", Method: "PUT", Shape: "object", Sub: "copy-source", Mutates: true, Action: "s3:PutObject", ResKind: "object", ACL: "WRITE",
 			Build: func(fx *Fixture) *s3c.Req { return s3c.CopyObject(fx.Alpha, "copied", fx.Alpha, fx.Obj) }, PathLike: []string{"bucket", "key", "copy-source"}},
 		{ID: "UploadPart", Method: "PUT", Shape: "object", Sub: "partNumber+uploadId", Mutates: true, Action: "s3:PutObject", ResKind: "object", ACL: "WRITE", Streams: true,
-			Build: func(fx *Fixture) *s3c.Req { return s3c.UploadPart(fx.Alpha, fx.MPKey, fx.UploadID, 2, []byte(strings.Repeat("part2", 500))) }, PathLike: []string{"bucket", "key", "uploadId", "partNumber"}},
+			Build: func(fx *Fixture) *s3c.Req {
+				return s3c.UploadPart(fx.Alpha, fx.MPKey, fx.UploadID, 2, []byte(strings.Repeat("part2", 500)))
+			}, PathLike: []string{"bucket", "key", "uploadId", "partNumber"}},
 		{ID: "UploadPartCopy", Method: "PUT", Shape: "object", Sub: "partNumber+uploadId+copy-source", Mutates: true, Action: "s3:PutObject", ResKind: "object", ACL: "WRITE",
-			Build: func(fx *Fixture) *s3c.Req { return s3c.UploadPartCopy(fx.Alpha, fx.MPKey, fx.UploadID, 3, fx.Alpha, fx.Obj, "") }, PathLike: []string{"bucket", "key", "uploadId", "partNumber", "copy-source", "copy-source-range"}},
+			Build: func(fx *Fixture) *s3c.Req {
+				return s3c.UploadPartCopy(fx.Alpha, fx.MPKey, fx.UploadID, 3, fx.Alpha, fx.Obj, "")
+			}, PathLike: []string{"bucket", "key", "uploadId", "partNumber", "copy-source", "copy-source-range"}},
 		{ID: "PutObjectTagging", Method: "PUT", Shape: "object", Sub: "tagging", Mutates: true, Action: "s3:PutObjectTagging", ResKind: "object", ACL: "WRITE",
-			Build: func(fx *Fixture) *s3c.Req { return s3c.PutObjectTagging(fx.Alpha, fx.Obj, []s3c.Tag{{Key: "a", Value: "b"}}) }, PathLike: []string{"bucket", "key"}},
+			Build: func(fx *Fixture) *s3c.Req {
+				return s3c.PutObjectTagging(fx.Alpha, fx.Obj, []s3c.Tag{{Key: "a", Value: "b"}})
+			}, PathLike: []string{"bucket", "key"}},
 		{ID: "PutObjectAcl", Method: "PUT", Shape: "object", Sub: "acl", Mutates: true, Action: "s3:PutObjectAcl", ResKind: "object", ACL: "WRITE_ACP", Unsupported: true,
 			Build: func(fx *Fixture) *s3c.Req {
 				return s3c.ObjectSub("PUT", fx.Alpha, fx.Obj, "acl", []byte(AclXML("ROOTACCESSKEY0000001", fx.UserB.Access, "READ")))
@@ -284,7 +296,10 @@ func Table() []Route {
 		{ID: "AdminCreateUser", Method: "PATCH", Shape: "admin", Mutates: true, AdminOnly: true,
 			Build: func(fx *Fixture) *s3c.Req { return s3c.AdminCreateUser("newuser", "newsecret0000000000", "user", 0, 0) }, PathLike: []string{"access"}},
 		{ID: "AdminUpdateUser", Method: "PATCH", Shape: "admin", Mutates: true, AdminOnly: true,
-			Build: func(fx *Fixture) *s3c.Req { s := "changedsecret000000"; return s3c.AdminUpdateUser(fx.UserB.Access, &s, nil, nil) }, PathLike: []string{"access"}},
+			Build: func(fx *Fixture) *s3c.Req {
+				s := "changedsecret000000"
+				return s3c.AdminUpdateUser(fx.UserB.Access, &s, nil, nil)
+			}, PathLike: []string{"access"}},
 		{ID: "AdminDeleteUser", Method: "PATCH", Shape: "admin", Mutates: true, AdminOnly: true,
 			Build: func(fx *Fixture) *s3c.Req { return s3c.AdminDeleteUser(fx.UserB.Access) }, PathLike: []string{"access"}},
 		{ID: "AdminListUsers", Method: "PATCH", Shape: "admin", AdminOnly: true,
@@ -315,4 +330,38 @@ func RouterShapes() map[string]bool {
 		m[r.Method+" "+shape] = true
 	}
 	return m
+}
+
+// Registrations is the set of method + pattern registrations of s3api/router.go that Table() was written
+// against. A tree that registers anything else has routes the table-driven checks (C02, C03, C04, C15, C20)
+// do not know about: they refuse to run (exit 2) instead of passing over an unexamined route.
+var Registrations = []string{
+	"DELETE /:bucket", "DELETE /:bucket/:key/*", "GET /", "GET /:bucket", "GET /:bucket/:key/*", "HEAD /:bucket",
+	"HEAD /:bucket/:key/*", "PATCH /change-bucket-owner", "PATCH /create-user", "PATCH /delete-user", "PATCH /list-buckets",
+	"PATCH /list-users", "PATCH update-user", "POST /:bucket", "POST /:bucket/:key/*", "PUT /:bucket", "PUT /:bucket/:key/*",
+}
+
+// RegistrationsDiff returns "" when got equals Registrations as a set.
+func RegistrationsDiff(got []string) string {
+	want := map[string]bool{}
+	for _, r := range Registrations {
+		want[r] = true
+	}
+	have := map[string]bool{}
+	var extra, missing []string
+	for _, r := range got {
+		have[r] = true
+		if !want[r] {
+			extra = append(extra, r)
+		}
+	}
+	for _, r := range Registrations {
+		if !have[r] {
+			missing = append(missing, r)
+		}
+	}
+	if len(extra)+len(missing) == 0 {
+		return ""
+	}
+	return fmt.Sprintf("registered but unknown to the route table: %v; in the route table but no longer registered: %v", extra, missing)
 }
